@@ -675,8 +675,32 @@ def build_cases(tier="quick"):
     return handler_cases() + handle_arm_cases() + delayed_error_cases() + ref
 
 
+def ground_message_total():
+    """the handler proofs replace extract_string_argument by `returns a message`: it must do so for EVERY byte content of the string
+    (a solidity string holds arbitrary bytes).  Exhaustive family, evaluated natively on the real extractor: every string of 0, 1
+    and 2 bytes (65793 strings) and the 256 three-byte strings e2 82 xx, as argument 1 of a (bool,string) call"""
+    import halmos.utils as hu
+    from halmos.bytevec import ByteVec
+
+    def calldata(msg):
+        return ByteVec(b"\x00" * 4 + (1).to_bytes(32, "big") + (64).to_bytes(32, "big") + len(msg).to_bytes(32, "big") + msg.ljust(32, b"\x00"))
+
+    bad, n = [], 0
+    fam = [b""] + [bytes([a]) for a in range(256)] + [bytes([a, b]) for a in range(256) for b in range(256)] + [bytes([0xE2, 0x82, c]) for c in range(256)]
+    for msg in fam:
+        n += 1
+        try:
+            r = hu.extract_string_argument(calldata(msg), 1)
+            if not isinstance(r, str):
+                bad.append((msg.hex(), f"returned {type(r).__name__}"))
+        except Exception as e:  # noqa
+            if len(bad) < 3:
+                bad.append((msg.hex(), f"{type(e).__name__}: {str(e)[:60]}"))
+    return [(f"extract_string_argument returns a message for every byte content ({n} strings): an assertion is evaluated whatever its log message holds", not bad, f"first failures (hex of the string, outcome): {bad[:2]}")]
+
+
 def grounds():
-    return [Ground(f"{PROP}/assertions.assert_cheatcode_handler", ground_table, sources=()), Ground(f"{PROP}/cheatcodes.sig-constants", ground_sig_constants)]
+    return [Ground(f"{PROP}/utils.extract_string_argument#total", ground_message_total, sources=("halmos.utils:extract_string_argument",)), Ground(f"{PROP}/assertions.assert_cheatcode_handler", ground_table, sources=()), Ground(f"{PROP}/cheatcodes.sig-constants", ground_sig_constants)]
 
 
 ASSUMPTIONS = [
